@@ -3,6 +3,8 @@ package wire
 import (
 	"bytes"
 	"encoding/json"
+	"fmt"
+	"strings"
 	"testing"
 
 	"github.com/CrowdStrike/csproto"
@@ -52,7 +54,86 @@ func oracleC02(c *WCase) (f *ev.Failure) {
 		}
 		start += sz
 	}
+	// direction 3: encodings a conforming writer MAY emit although csproto's own encoder never does: varints
+	// (values, packed elements, length prefixes) padded with zero groups, and a bool written as any non-zero
+	// varint.  A conforming reader - the reference - reads the same value from them.
+	if alt, exp := altEncode(c); alt != nil {
+		d := csproto.NewDecoder(alt)
+		if c.Mode == 1 {
+			d.SetMode(csproto.DecoderModeFast)
+		}
+		if f := decodeAndCompare("C02", kindByName(c.Kind), d, exp, 0, len(alt)); f != nil {
+			f.Sig = strings.Replace(f.Sig, "C02/", "C02/non-minimal-encoding/", 1)
+			f.Detail += fmt.Sprintf(" (non-minimal but valid encoding %.64x)", alt)
+			return f
+		}
+	}
 	return nil
+}
+
+// padVarint re-encodes a minimally encoded varint with p extra zero groups; unchanged if that exceeds 10 bytes.
+func padVarint(min []byte, p int) []byte {
+	if p == 0 || len(min)+p > 10 {
+		return min
+	}
+	out := append([]byte{}, min...)
+	out[len(out)-1] |= 0x80
+	for i := 0; i < p-1; i++ {
+		out = append(out, 0x80)
+	}
+	return append(out, 0x00)
+}
+
+// altEncode builds a valid non-minimal encoding of the case's first field and the case describing what a
+// conforming reader gets out of it.  The amount of padding is a function of the case (no randomness here).
+func altEncode(c *WCase) ([]byte, *WCase) {
+	k := kindByName(c.Kind)
+	exp := &WCase{Kind: c.Kind, Num: c.Num, Mode: c.Mode, Data: c.Data, Vals: append([]uint64{}, c.Vals...)}
+	isBool := k.name == "bool" || k.name == "packed-bool"
+	elem := func(i int, v uint64) []byte {
+		if k.wt != refwire.WTVarint {
+			return k.ref(nil, k.norm(v))
+		}
+		if isBool && v > 1 && i%2 == 0 {
+			exp.Vals[i] = 1 // any non-zero varint is true
+			return padVarint(refwire.AppendVarint(nil, v), (i/2)%2)
+		}
+		return padVarint(k.ref(nil, k.norm(v)), (i+c.Num)%3)
+	}
+	var out []byte
+	switch {
+	case k.isLen:
+		out = refwire.AppendKey(out, c.Num, refwire.WTLen)
+		out = append(out, padVarint(refwire.AppendVarint(nil, uint64(len(c.Data))), 1+c.Num%2)...)
+		out = append(out, c.Data...)
+	case k.packed:
+		if len(c.Vals) == 0 {
+			return nil, nil
+		}
+		var p []byte
+		for i, v := range c.Vals {
+			p = append(p, elem(i, v)...)
+		}
+		out = refwire.AppendKey(out, c.Num, refwire.WTLen)
+		out = append(out, padVarint(refwire.AppendVarint(nil, uint64(len(p))), c.Num%3)...)
+		out = append(out, p...)
+	default:
+		if k.wt != refwire.WTVarint {
+			return nil, nil
+		}
+		out = refwire.AppendKey(out, c.Num, k.wt)
+		if isBool && c.Vals[0] > 1 {
+			exp.Vals[0] = 1
+			out = append(out, padVarint(refwire.AppendVarint(nil, c.Vals[0]), c.Num%2)...)
+		} else {
+			out = append(out, padVarint(k.ref(nil, k.norm(c.Vals[0])), 1+c.Num%2)...)
+		}
+	}
+	// the reference agrees that this is one complete, valid field
+	if fs, err := refwire.Walk(out); err != nil || len(fs) != 1 {
+		panic(fmt.Sprintf("harness: alternative encoding %x is not one valid field: %v", out, err))
+	}
+	return out, exp
 }
 
 // SkipCase is a well-formed field sequence walked with DecodeTag + Skip.
@@ -127,7 +208,7 @@ func skipNontrivial(c *SkipCase) bool {
 	return false
 }
 
-const ruleC02 = "C01's case stream (own run) checked differentially: csproto's bytes == protowire's == refwire's, and the references' bytes decode through csproto to the reference value; " +
+const ruleC02 = "C01's case stream (own run) checked differentially: csproto's bytes == protowire's == refwire's, and the references' bytes decode through csproto to the reference value, as do valid NON-minimal encodings of the same field (value / packed-element / length varints padded with zero groups, bool written as any non-zero varint); " +
 	"plus well-formed field sequences (0..8 fields, nesting depth <= 3, all four wire types, numbers up to 2^29-1) walked with DecodeTag+Skip in both modes, and (thorough) every sequence of <= 3 fields over a small alphabet; " +
 	"non-trivial = as C01; for Skip: >= 2 fields with a length-delimited field or a multi-byte key; distinct by case content"
 
